@@ -49,6 +49,13 @@ func wildFloat(r *simcore.RNG, class int) float64 {
 		return math.Copysign(math.MaxFloat32*(1-r.Float64()*1e-3), r.Float64()-0.5)
 	case 6: // halfway cases for 2 and 4 decimals
 		return float64(r.Intn(2000)-1000)/8 + float64(r.Intn(3)-1)*0.00005
+	case 8: // decimal lattice: k/1000 and k/200 (x.xx5), inexact in binary
+		if r.Intn(2) == 0 {
+			return float64(r.Intn(40001)-20000) / 1000
+		}
+		return float64(r.Intn(8001)-4000) / 200
+	case 9: // far away: small detail next to it is absorbed by careless arithmetic
+		return math.Copysign(math.Pow(10, 13+3*r.Float64()), r.Float64()-0.5)
 	default: // medium: beyond +-2148 (3MF de-duplication bucket range)
 		return (r.Float64() - 0.5) * 20000
 	}
@@ -57,11 +64,11 @@ func wildFloat(r *simcore.RNG, class int) float64 {
 func wildClass(r *simcore.RNG, mode string) int {
 	switch mode {
 	case "wild-small": // classes that keep |v| < 2000 and are well conditioned
-		return []int{0, 1, 2, 6}[r.Intn(4)]
+		return []int{0, 1, 2, 6, 8}[r.Intn(5)]
 	case "wild-medium":
-		return []int{0, 1, 2, 6, 7}[r.Intn(5)]
+		return []int{0, 1, 2, 6, 7, 8}[r.Intn(6)]
 	default:
-		return r.Intn(8)
+		return r.Intn(10)
 	}
 }
 
@@ -118,9 +125,12 @@ func genLines(n int, coords string, seed uint64) []*sdf.Line2 {
 	r := simcore.NewRNG(seed)
 	var pool []v2.Vec
 	for i := range out {
-		cls := []int{0, 1, 2, 6, 7, 3}[r.Intn(6)]
+		cls := []int{0, 1, 2, 6, 7, 3, 8, 8, 1, 4}[r.Intn(10)]
 		if coords == "wild-small" {
-			cls = []int{0, 1, 2, 6}[r.Intn(4)]
+			cls = []int{0, 1, 2, 6, 8}[r.Intn(5)]
+		}
+		if coords != "wild-small" && r.Intn(12) == 0 {
+			cls = 9
 		}
 		var l sdf.Line2
 		for k := 0; k < 2; k++ {
@@ -282,8 +292,9 @@ func lineKeyMem(l *sdf.Line2) string {
 // SVG reference model: translate so that the drawing's minimum corner is the
 // origin, flip Y, two decimals, canvas = extent.
 type svgRef struct {
-	W, H  float64
-	Lines []string
+	W, H                   float64
+	Lines                  []string
+	minX, minY, maxX, maxY float64
 }
 
 func svgReference(lines []*sdf.Line2) svgRef {
@@ -301,6 +312,7 @@ func svgReference(lines []*sdf.Line2) svgRef {
 			maxY = math.Max(maxY, l[k].Y)
 		}
 	}
+	ref.minX, ref.minY, ref.maxX, ref.maxY = minX, minY, maxX, maxY
 	ref.W = roundDec(maxX-minX, 2, 64)
 	ref.H = roundDec(maxY-minY, 2, 64)
 	for _, l := range lines {
